@@ -15,6 +15,7 @@ from ..container import MetadorContainer, MetadorDataset, MetadorGroup
 from ..harvester import harvest
 from ..plugins import harvesters, schemas
 from ..schema import MetadataSchema
+from ..util.hashsums import hashsum
 from .types import DirValidationErrors
 
 
@@ -100,7 +101,13 @@ def pack_file(
         msg = f"Given metadata is a {type(metadata)}, which is not a schema plugin!"
         raise ValueError(msg)
 
-    data = _h5_wrap_bytes(file_path.read_bytes())
+    bs = file_path.read_bytes()
+    # the metadata must describe what is embedded (the file could have changed meanwhile)
+    if metadata.contentSize != len(bs) or metadata.sha256 != hashsum(bs, "sha256"):
+        msg = f"Metadata does not match file '{file_path}' (different size or hashsum)!"
+        raise ValueError(msg)
+
+    data = _h5_wrap_bytes(bs)
     ret = node.create_dataset(target, data=data)
 
     # set file metadata @id to be relative to dataset root just like RO Crate wants
